@@ -760,6 +760,11 @@ var c07Specs = []c07Spec{
 	{rs: "a+", alphabet: "ax", seps: []string{"a", "aa", "aaa", "aaaaa"}, fill: []string{"x", "xy", ""}},
 	{rs: "ab|a", alphabet: "abx", seps: []string{"a", "ab", "aab", "b"}, fill: []string{"x", "xy", ""}},
 	{rs: "a|abc", alphabet: "abcx", seps: []string{"a", "abc", "ab", "aabc"}, fill: []string{"x", "xy", ""}},
+	// a short alternative inside a longer one that starts earlier: a deferred match of the short one
+	// must not hide the long one once its bytes arrive
+	{rs: "abc|b", alphabet: "abcx", seps: []string{"abc", "b", "ab", "bc", "abcb", "a", "abb"}, fill: []string{"x", "xy", ""}},
+	{rs: "-\n-|\n", alphabet: "-\nx", seps: []string{"-\n-", "\n", "-\n", "-", "\n-", "-\n-\n"}, fill: []string{"x", "xy", ""}},
+	{rs: "xyz|y|zz", alphabet: "xyzw", seps: []string{"xyz", "y", "xy", "zz", "yz", "xyzz"}, fill: []string{"w", "ww", ""}},
 	{rs: "\n\n+", alphabet: "\nx", seps: []string{"\n", "\n\n", "\n\n\n", "\n\n\n\n\n"}, fill: []string{"x", "xy", ""}},
 	{rs: "[0-9]+", alphabet: "12x", seps: []string{"1", "12", "2021", "0"}, fill: []string{"x", "xy", ""}},
 	{rs: "x*y", alphabet: "xyz", seps: []string{"y", "xy", "xxy", "x", "xx"}, fill: []string{"z", "zw", ""}},
